@@ -175,6 +175,24 @@ func TestC13(t *testing.T) {
 	}})
 }
 
+// C19: order of queues, applications, asks and nodes as a function of their keys, on the states real histories produce
+func TestC19(t *testing.T) {
+	runWorld(t, worldCheck{prop: "C19", check: "C19/world", profile: func() *harness.Profile {
+		p := mixedProfile()
+		p.Name = "sorting"
+		p.Conf = harness.ConfOpts{MaxDepth: 2, Quotas: true, Preemption: true, WideTrees: true}
+		p.Weights = harness.With(harness.BaseWeights(), map[string]int{harness.OpAddApp: 10, harness.OpAddAsk: 24, harness.OpReportBound: 6, harness.OpRelease: 6, harness.OpUpdNode: 4,
+			harness.OpForeign: 4, harness.OpReload: 2, harness.OpSchedule: 14})
+		p.NodeLo, p.NodeHi, p.AskLo, p.AskHi = 10, 40, 1, 6
+		p.GangProb, p.ReqNodeProb, p.OldAskProb = 10, 5, 50
+		p.Epilogue = false
+		p.MinSteps, p.MaxSteps = 15, 70
+		return p
+	}, nonTriv: func(w *harness.World) bool {
+		return w.Tags["c19-queues-3-candidates-distinct-keys"]+w.Tags["c19-apps-3-candidates-distinct-keys"] > 0 && w.Tags["c19-nodes-3-distinct-scores"] > 0
+	}})
+}
+
 func TestC09(t *testing.T) {
 	runWorld(t, worldCheck{prop: "C09", check: "C09/world", profile: reserveProfile, nonTriv: func(w *harness.World) bool {
 		removedOther := 0
